@@ -56,14 +56,15 @@ const (
 	WPtr
 	WSlice
 	WSlicePtr
-	WMap      // map[MapKey]K
-	WFunc0    // func()
-	WFunc1    // func(K)
-	WFunc1Err // func(K) error
-	WFunc0Err // func() error
+	WMap       // map[MapKey]K
+	WFunc0     // func()
+	WFunc1     // func(K)
+	WFunc1Err  // func(K) error
+	WFunc0Err  // func() error
+	WFunc1PErr // func(K) *PErr - a concrete pointer type that implements error; a nil result is NOT an error
 )
 
-var wrapNames = [...]string{"", "*", "[]", "[]*", "map", "func()", "func(T)", "func(T)error", "func()error"}
+var wrapNames = [...]string{"", "*", "[]", "[]*", "map", "func()", "func(T)", "func(T)error", "func()error", "func(T)*PErr"}
 
 type TypeSpec struct {
 	K      TK
@@ -83,6 +84,8 @@ func (t TypeSpec) String() string {
 		return "func(" + t.K.String() + ")"
 	case WFunc1Err:
 		return "func(" + t.K.String() + ")error"
+	case WFunc1PErr:
+		return "func(" + t.K.String() + ")*PErr"
 	}
 	return wrapNames[t.W] + t.K.String()
 }
@@ -180,6 +183,11 @@ func (x *Res) UnmarshalFlag(s string) error {
 	return nil
 }
 
+// PErr is a concrete error type; callbacks declared to return *PErr return a nil pointer on success.
+type PErr struct{ msg string }
+
+func (e *PErr) Error() string { return e.msg }
+
 type Bag struct{ items []string }
 
 func (b *Bag) UnmarshalFlag(s string) error {
@@ -268,6 +276,8 @@ func (t TypeSpec) GoType() reflect.Type {
 		return reflect.FuncOf([]reflect.Type{e}, nil, false)
 	case WFunc1Err:
 		return reflect.FuncOf([]reflect.Type{e}, []reflect.Type{tError}, false)
+	case WFunc1PErr:
+		return reflect.FuncOf([]reflect.Type{e}, []reflect.Type{reflect.TypeOf((*PErr)(nil))}, false)
 	}
 	panic("bad wrap")
 }
@@ -279,7 +289,7 @@ func (t TypeSpec) IsFlag() bool {
 	if t.W == WFunc0 || t.W == WFunc0Err {
 		return true
 	}
-	if t.W == WMap || t.W == WFunc1 || t.W == WFunc1Err {
+	if t.W == WMap || t.W == WFunc1 || t.W == WFunc1Err || t.W == WFunc1PErr {
 		return false
 	}
 	return t.K == KBool
